@@ -457,7 +457,7 @@ def run_producer_family(ctx, cases):
     for (out, crashes), ch in zip(oc, chunks):
         res += out
         for bad, err in crashes[:1]:
-            ctx.violation("sanitizer build aborted while compressing with a registered sequence producer: %s" % err[-600:], dict(kind="monitor", harness="zvh_seqprod", op=bad[:400000], stderr=err[-3000:]))
+            ctx.violation("sanitizer build aborted while compressing with a registered sequence producer: %s" % err[-600:], dict(kind="monitor", harness="zvh_seqprod", op=bad[:40000000], stderr=err[-3000:]))
     # model verdict per block, in block order
     mlines, mref = [], []
     parsed = []
@@ -529,7 +529,7 @@ def run_producer_family(ctx, cases):
             ncalls += 1
             if o == "failed": expect = "err sequenceProducer_failed"; break
             if o == "invalid": expect = "err externalSequences_invalid"; break
-        rep = dict(kind="monitor", harness="zvh_seqprod", op=lines[ci][:400000], impl=head[:200], calls=";".join(":".join(t) for t in cl), model=[o for _, _, _, o in outs][:40], how=c["how"])
+        rep = dict(kind="monitor", harness="zvh_seqprod", op=lines[ci][:40000000], impl=head[:200], calls=";".join(":".join(t) for t in cl), model=[o for _, _, _, o in outs][:40], how=c["how"])
         got = head if head.startswith("err") else "ok"
         if got != expect:
             if expect == "ok":
@@ -587,10 +587,10 @@ def run_producer_family(ctx, cases):
     for (ci, bi, k, s0, held, truth) in mism[:3]:
         c = cases[ci]
         rep = dict(kind="tie", harness="zvh_seqprod", correspondence="repeat-offset history at the start of a block: compressor (prevCBlock->rep) vs decoder / SeqApi.storeExplicit",
-                   op=lines[ci][:400000], block=bi, compressor_holds=held, decoder_holds=truth, how=c["how"])
+                   op=lines[ci][:40000000], block=bi, compressor_holds=held, decoder_holds=truth, how=c["how"])
         found = exploit_history(ctx, c, bi, k, s0, [int(v) for v in held.split(".")], [int(v) for v in truth.split(".")])
         if found:
-            ctx.violation("after a block answered by the sequence producer the compressor's repeat-offset history is %s, the decoder's %s; a following block handed to the internal parser (producer failure, fallback enabled) is then emitted with a repeat code the decoder resolves differently: %s (%s; params %s)" % (held, truth, found["desc"], c["how"], frames.pstr(found["p"])), dict(rep, kind="monitor", op=found["op"][:400000], result=found["result"]))
+            ctx.violation("after a block answered by the sequence producer the compressor's repeat-offset history is %s, the decoder's %s; a following block handed to the internal parser (producer failure, fallback enabled) is then emitted with a repeat code the decoder resolves differently: %s (%s; params %s)" % (held, truth, found["desc"], c["how"], frames.pstr(found["p"])), dict(rep, kind="monitor", op=found["op"][:40000000], result=found["result"]))
         else:
             ctx.violation("at the start of block %d the compressor's repeat-offset history is %s but the decoder's (and the model's) is %s (%s; params %s)" % (bi, held, truth, c["how"], frames.pstr(c["p"])), rep, no_input=True)
     return ev, stats
@@ -683,7 +683,7 @@ def run_ll64k(ctx):
     for (c, how), (h, ln), o in zip(gmeta, glines, outs):
         ev += 1
         g = o[0] if o else "crash"
-        rep = dict(kind="monitor", op=ln[:400000], result=g[:2000], literal_run=c["lrun"], how=how)
+        rep = dict(kind="monitor", op=ln[:40000000], result=g[:2000], literal_run=c["lrun"], how=how)
         if g.startswith("err") or g == "crash":
             ctx.violation("ZSTD_generateSequences failed (%s) on a source with a literal run of %d bytes (%s)" % (g, c["lrun"], how), rep)
             continue
@@ -703,7 +703,7 @@ def run_ll64k(ctx):
             ev += 1
             if f.startswith("err") or a != w:
                 ctx.violation("the sequences extracted by ZSTD_generateSequences (%s, literal run %d) fed back to ZSTD_compressSequences: %s" % (how, c["lrun"], f if f.startswith("err") else "frame decodes to %r, source is %r" % (a, w)),
-                              dict(kind="monitor", op=ln[:400000], result=f[:200], decoder=a, expected=w))
+                              dict(kind="monitor", op=ln[:40000000], result=f[:200], decoder=a, expected=w))
     return ev, len(cases)
 
 
@@ -876,7 +876,7 @@ def run_merge_family(ctx):
     for (rc, out, err), ch in zip(oc, frames.split_chunks(cl, 8)):
         got += out + ["crash"] * (len(ch) - len(out))
         if rc != 0:
-            ctx.violation("sanitizer build aborted in ZSTD_mergeBlockDelimiters: %s" % err[-600:], dict(kind="monitor", harness="zvh_seqprod", op=ch[min(len(out), len(ch) - 1)][:400000], stderr=err[-3000:]))
+            ctx.violation("sanitizer build aborted in ZSTD_mergeBlockDelimiters: %s" % err[-600:], dict(kind="monitor", harness="zvh_seqprod", op=ch[min(len(out), len(ch) - 1)][:40000000], stderr=err[-3000:]))
     mo = frames.parallel(lambda ch: seqprod_model(ch), frames.split_chunks(ml, 8))
     runs2 = 0
     for a, c, m, g in zip(arrs, cl, mo, got):
@@ -887,7 +887,7 @@ def run_merge_family(ctx):
         want = m.split(" ")[0]
         if g != want and len(ctx.violations) < 6:
             ctx.violation("ZSTD_mergeBlockDelimiters on %s leaves %s, the model (delimiters dropped, their literals - of every delimiter of a run - carried to the next sequence) says %s" % (sstr(a)[:300], g[:300], want[:300]),
-                          dict(kind="monitor", harness="zvh_seqprod", op=c[:400000], model_op=("merge " + sstr(a))[:400000], impl=g[:2000], model=m[:2000]))
+                          dict(kind="monitor", harness="zvh_seqprod", op=c[:40000000], model_op=("merge " + sstr(a))[:40000000], impl=g[:2000], model=m[:2000]))
     # (b) extracted lists with runs of bare delimiters
     srcs = bare_block_sources(rng, ctx.quick())
     gl = ["genmerge %s %s" % (frames.pstr(p), frames.hx(x)) for x, p, _, _ in srcs]
@@ -898,7 +898,7 @@ def run_merge_family(ctx):
         ev += 1
         if len(ctx.violations) >= 10:
             break
-        rep = dict(kind="monitor", harness="zvh_seqprod", op=ln[:400000], how="source with match-less blocks in a row (%s, blocks of %d)" % (shape, mbs))
+        rep = dict(kind="monitor", harness="zvh_seqprod", op=ln[:40000000], how="source with match-less blocks in a row (%s, blocks of %d)" % (shape, mbs))
         if rc != 0 or not out:
             ctx.violation("sanitizer build aborted in ZSTD_generateSequences + ZSTD_mergeBlockDelimiters: %s" % err[-600:], dict(rep, stderr=err[-3000:]))
             continue
@@ -918,7 +918,7 @@ def run_merge_family(ctx):
         if ms != model[0]:
             ctx.violation("ZSTD_mergeBlockDelimiters on the list ZSTD_generateSequences reported (%d entries, runs of bare delimiters) differs from the model: merged list describes %d bytes, the model's %d + %s last literals, the source has %d (params %s)" % (
                 len(E), sum(l + m_ for _, l, m_ in M), sum(int(t.split(":")[1]) + int(t.split(":")[2]) for t in model[0].split(",")) if model[0] != "-" else 0, model[1], len(x), frames.pstr(p)),
-                dict(rep, model_op=("merge " + es)[:400000], impl=ms[:2000], model=model[0][:2000]))
+                dict(rep, model_op=("merge " + es)[:40000000], impl=ms[:2000], model=model[0][:2000]))
             continue
         covered = sum(l + m_ for _, l, m_ in M)
         bad = exec_parse(M, x[:covered]) if covered <= len(x) else covered
@@ -934,7 +934,7 @@ def run_merge_family(ctx):
         for (rc, out, err), ch in zip(fr, frames.split_chunks(cs, 16)):
             fl += out + ["crash"] * (len(ch) - len(out))
             if rc != 0:
-                ctx.violation("sanitizer build aborted in ZSTD_compressSequences on a merged extracted parse: %s" % err[-600:], dict(kind="monitor", op=ch[min(len(out), len(ch) - 1)][:400000], stderr=err[-3000:]))
+                ctx.violation("sanitizer build aborted in ZSTD_compressSequences on a merged extracted parse: %s" % err[-600:], dict(kind="monitor", op=ch[min(len(out), len(ch) - 1)][:40000000], stderr=err[-3000:]))
         idx = [i for i, f in enumerate(fl) if f != "crash" and not f.startswith("err")]
         da = frames.parallel(lambda ch: frames.run_lines(plain, ch)[1], frames.split_chunks(["dec %d %s" % (len(cm[i][0]), fl[i]) for i in idx], 16)) if idx else []
         wa = frames.parallel(lambda ch: frames.run_lines(plain, ch)[1], frames.split_chunks(["xxh " + frames.hx(cm[i][0]) for i in idx], 16)) if idx else []
@@ -944,7 +944,7 @@ def run_merge_family(ctx):
             ev += 1
             if f == "crash" or len(ctx.violations) >= 6:
                 continue
-            r = dict(rep, op=ln[:400000], extraction_op=rep["op"][:200000])
+            r = dict(rep, op=ln[:40000000], extraction_op=rep["op"][:200000])
             if f.startswith("err"):
                 ctx.violation("ZSTD_generateSequences -> ZSTD_mergeBlockDelimiters -> ZSTD_compressSequences (no delimiters, validateSequences=%d) refused the merged parse: %s" % (q[1009], f), dict(r, result=f))
                 continue
@@ -1032,7 +1032,7 @@ def correspondence(ctx):
         dh = frames.hx(dictof[k_]) if k_ in dictof else None
         if f.startswith("err"):
             refused += 1
-            ctx.violation("a valid parse (%s) was refused: %s  params %s" % (how, f, frames.pstr(p)), dict(kind="monitor", op=ln[:400000], result=f))
+            ctx.violation("a valid parse (%s) was refused: %s  params %s" % (how, f, frames.pstr(p)), dict(kind="monitor", op=ln[:40000000], result=f))
             if len(ctx.violations) >= 4:
                 break
             continue
@@ -1042,7 +1042,7 @@ def correspondence(ctx):
     ww = frames.parallel(lambda ch: frames.run_lines(plain, ch)[1], frames.split_chunks(wl_, 16))
     for (x, p, how, ln), a, b, w in zip(keep, cd, cf, ww):
         ev += 2
-        rep = dict(kind="monitor", op=ln[:400000], library_decoder=a, conformance=b[:300], expected=w)
+        rep = dict(kind="monitor", op=ln[:40000000], library_decoder=a, conformance=b[:300], expected=w)
         if a != w:
             ctx.violation("frame from a valid parse (%s) does not decode to the source: %r expected %r (params %s)" % (how, a, w, frames.pstr(p)), rep)
         elif not b.startswith("ok"):
@@ -1124,7 +1124,7 @@ def correspondence(ctx):
     for (out, crashes), ch in zip(oc, frames.split_chunks(cl2, 16)):
         r2 += out
         for bad, err in crashes[:1]:
-            ctx.violation("sanitizer build aborted in ZSTD_compressSequences on an arbitrary sequence array: %s" % err[-600:], dict(kind="monitor", op=bad[:400000], stderr=err[-3000:]))
+            ctx.violation("sanitizer build aborted in ZSTD_compressSequences on an arbitrary sequence array: %s" % err[-600:], dict(kind="monitor", op=bad[:40000000], stderr=err[-3000:]))
     m2 = frames.parallel(lambda ch: frames.model_lines(ch), frames.split_chunks(ml2, 16))
     # accepted lists (valid by the rules, whatever their content) must at least produce a frame the decoder does not reject
     acc_idx = [k for k, c in enumerate(r2) if c != "crash" and not c.startswith("err")]
@@ -1133,7 +1133,7 @@ def correspondence(ctx):
         ev += 1
         if dres.startswith("err") and len(ctx.violations) < 8:
             ctx.violation("with validation on, ZSTD_compressSequences accepted a sequence list and emitted a frame the decoder rejects (%s): an offset beyond the available history, or lengths beyond the source, were let through" % dres,
-                          dict(kind="monitor", op=cl2[k][:400000], model_op=ml2[k][:400000], frame=r2[k][:2000], decoder=dres))
+                          dict(kind="monitor", op=cl2[k][:40000000], model_op=ml2[k][:40000000], frame=r2[k][:2000], decoder=dres))
     agree = {"accept": 0, "reject": 0}
     for ln, mln, c, m in zip(cl2, ml2, r2, m2):
         ev += 1
@@ -1145,9 +1145,9 @@ def correspondence(ctx):
             agree[m] += 1
         elif cacc and not macc:
             ctx.violation("with validation on, ZSTD_compressSequences ACCEPTED a list the model refuses (offset beyond window / history at match start, short match, delimiter or length mismatch)",
-                          dict(kind="monitor", op=ln[:400000], model_op=mln[:400000], impl=c[:100], model=m))
+                          dict(kind="monitor", op=ln[:40000000], model_op=mln[:40000000], impl=c[:100], model=m))
         else:
-            ctx.violation("model accepts a sequence list the implementation refuses: %s" % c, dict(kind="tie", correspondence="SeqApi.acceptExplicit vs ZSTD_compressSequences", op=ln[:400000], model_op=mln[:400000], impl=c, model=m), no_input=True)
+            ctx.violation("model accepts a sequence list the implementation refuses: %s" % c, dict(kind="tie", correspondence="SeqApi.acceptExplicit vs ZSTD_compressSequences", op=ln[:40000000], model_op=mln[:40000000], impl=c, model=m), no_input=True)
         if len(ctx.violations) >= 8:
             break
     # (3) registered block-level sequence producer: replayed parses, failures, fallback
